@@ -3,6 +3,11 @@ package c16
 import "wzverif/internal/kit"
 
 // Each trigger is a predicate on the case only (the reference interpreter is a pure function of the case).
+//
+// The three rescan findings cover exactly the (value position, directive kind) combinations that the unchanged
+// library interprets again (rescan.go: classify); a brace-bearing value outside these classes - e.g. a variable
+// holding "{{other}}" with `other` supplied in a template without inheritance, values holding "{{", "}}",
+// "{{ x }}", "{{/if}}" outside a conditional, an item field holding "{{#each l}}..{{/each}}" - is judged exactly.
 var findings = []kit.Finding[Case]{
 	{
 		ID: "KF-C16-else", Clause: "C16.T1",
@@ -14,8 +19,18 @@ var findings = []kit.Finding[Case]{
 	},
 	{
 		ID: "KF-C16-rescan", Clause: "C16.T1",
-		Desc:    "inserted values are scanned again by later passes: a data string containing '{{' is interpreted as template syntax",
-		Trigger: func(c Case, f kit.Failure) bool { return c.someDataStringHasOpenBraces() },
+		Desc: "text inserted by one pass is scanned by the later passes of the same run (variables, then loops, then conditionals, then images): a variable value holding {{#each ..}}, or used inside a loop and holding {{/each}} / {{this}} / {{@index}} / an item field placeholder; any value holding {{#if ..}}, or inserted inside a conditional and holding {{/if}} / {{else}}; any value holding {{#image ..}} or [IMAGE:..]",
+		Trigger: func(c Case, f kit.Failure) bool { return c.hasRescanClass("rescan:") },
+	},
+	{
+		ID: "KF-C16-rescan-fields", Clause: "C16.T1",
+		Desc: "inside a loop the item's placeholders are substituted one after the other over the whole body (this, @index, @first, @last, then each field in map order, inner loops before outer fields): a scalar item holding {{@index}}/{{@first}}/{{@last}}, or an item value holding the placeholder of a field of the same or an enclosing item, is substituted again",
+		Trigger: func(c Case, f kit.Failure) bool { return c.hasRescanClass("fields:") },
+	},
+	{
+		ID: "KF-C16-rescan-inherit", Clause: "C16.T1",
+		Desc: "for a derived template the whole pipeline runs again over the rendered text of its base: a value holding the placeholder of a supplied variable, {{#each ..}} or {{#block ..}} is interpreted on the second run",
+		Trigger: func(c Case, f kit.Failure) bool { return c.hasRescanClass("inherit:") },
 	},
 	{
 		ID: "KF-C16-nested-context", Clause: "C16.T1",
